@@ -91,7 +91,7 @@ seq_t dtw_distance(seq_t *s1, idx_t l1,
     idx_t dl;
     // DTWPruned
     idx_t sc = 0;
-    idx_t ec = 0;
+    idx_t ec = settings->psi_2b;
     bool smaller_found;
     idx_t ec_next;
     // signal(SIGINT, dtw_int_handler); // not compatible with OMP
@@ -200,6 +200,10 @@ seq_t dtw_distance(seq_t *s1, idx_t l1,
         // }
         skip = skip * (length != l2 + 1);
         // PrunedDTW
+        if (i <= settings->psi_1b) {
+            // rows that can start for free in the first column are scanned from that column
+            sc = 0;
+        }
         if (sc > maxj) {
             #ifdef DTWDEBUG
             printf("correct maxj to sc: %zu -> %zu (saved %zu computations)\n", maxj, sc, sc-maxj);
@@ -328,7 +332,7 @@ seq_t dtw_distance_ndim(seq_t *s1, idx_t l1,
     idx_t dl;
     // DTWPruned
     idx_t sc = 0;
-    idx_t ec = 0;
+    idx_t ec = settings->psi_2b;
     bool smaller_found;
     idx_t ec_next;
     // signal(SIGINT, dtw_int_handler); // not compatible with OMP
@@ -440,6 +444,10 @@ seq_t dtw_distance_ndim(seq_t *s1, idx_t l1,
         // }
         skip = skip * (length != l2 + 1);
         // PrunedDTW
+        if (i <= settings->psi_1b) {
+            // rows that can start for free in the first column are scanned from that column
+            sc = 0;
+        }
         if (sc > maxj) {
             #ifdef DTWDEBUG
             printf("correct maxj to sc: %zu -> %zu (saved %zu computations)\n", maxj, sc, sc-maxj);
@@ -568,7 +576,7 @@ seq_t dtw_distance_euclidean(seq_t *s1, idx_t l1,
     idx_t dl;
     // DTWPruned
     idx_t sc = 0;
-    idx_t ec = 0;
+    idx_t ec = settings->psi_2b;
     bool smaller_found;
     idx_t ec_next;
     // signal(SIGINT, dtw_int_handler); // not compatible with OMP
@@ -671,6 +679,10 @@ seq_t dtw_distance_euclidean(seq_t *s1, idx_t l1,
         // }
         skip = skip * (length != l2 + 1);
         // PrunedDTW
+        if (i <= settings->psi_1b) {
+            // rows that can start for free in the first column are scanned from that column
+            sc = 0;
+        }
         if (sc > maxj) {
             #ifdef DTWDEBUG
             printf("correct maxj to sc: %zu -> %zu (saved %zu computations)\n", maxj, sc, sc-maxj);
@@ -796,7 +808,7 @@ seq_t dtw_distance_ndim_euclidean(seq_t *s1, idx_t l1,
     idx_t dl;
     // DTWPruned
     idx_t sc = 0;
-    idx_t ec = 0;
+    idx_t ec = settings->psi_2b;
     bool smaller_found;
     idx_t ec_next;
     // signal(SIGINT, dtw_int_handler); // not compatible with OMP
@@ -902,6 +914,10 @@ seq_t dtw_distance_ndim_euclidean(seq_t *s1, idx_t l1,
         // }
         skip = skip * (length != l2 + 1);
         // PrunedDTW
+        if (i <= settings->psi_1b) {
+            // rows that can start for free in the first column are scanned from that column
+            sc = 0;
+        }
         if (sc > maxj) {
             #ifdef DTWDEBUG
             printf("correct maxj to sc: %zu -> %zu (saved %zu computations)\n", maxj, sc, sc-maxj);
@@ -1056,7 +1072,7 @@ seq_t dtw_warping_paths_ndim(seq_t *wps,
     }
     // DTWPruned
     idx_t sc = 0;
-    idx_t ec = 0;
+    idx_t ec = settings->psi_2b;
     idx_t ec_next;
     bool smaller_found;
 
@@ -1120,6 +1136,10 @@ seq_t dtw_warping_paths_ndim(seq_t *wps,
         ci = min_ci;
         wpsi = 1; // index for min_ci
         // PrunedDTW
+        if (ri <= settings->psi_1b) {
+            // rows that can start for free in the first column are scanned from that column
+            sc = 0;
+        }
         if (sc <= min_ci) {} else {
             for (; ci<sc; ci++) {
                 wps[ri_width + wpsi] = INFINITY;
@@ -1170,6 +1190,10 @@ seq_t dtw_warping_paths_ndim(seq_t *wps,
         wpsi = 1;
         ci = min_ci;
         // PrunedDTW
+        if (ri <= settings->psi_1b) {
+            // rows that can start for free in the first column are scanned from that column
+            sc = 0;
+        }
         if (sc <= min_ci) {} else {
             for (; ci<sc; ci++) {
                 wps[ri_width + wpsi] = INFINITY;
@@ -1435,7 +1459,7 @@ seq_t dtw_warping_paths_ndim_euclidean(seq_t *wps,
                         DTWSettings *settings) {
     // DTWPruned
     idx_t sc = 0;
-    idx_t ec = 0;
+    idx_t ec = settings->psi_2b;
     idx_t ec_next;
     bool smaller_found;
 
@@ -1494,6 +1518,10 @@ seq_t dtw_warping_paths_ndim_euclidean(seq_t *wps,
         ci = min_ci;
         wpsi = 1; // index for min_ci
         // PrunedDTW
+        if (ri <= settings->psi_1b) {
+            // rows that can start for free in the first column are scanned from that column
+            sc = 0;
+        }
         if (sc <= min_ci) {} else {
             for (; ci<sc; ci++) {
                 wps[ri_width + wpsi] = INFINITY;
@@ -1545,6 +1573,10 @@ seq_t dtw_warping_paths_ndim_euclidean(seq_t *wps,
         wpsi = 1;
         ci = min_ci;
         // PrunedDTW
+        if (ri <= settings->psi_1b) {
+            // rows that can start for free in the first column are scanned from that column
+            sc = 0;
+        }
         if (sc <= min_ci) {} else {
             for (; ci<sc; ci++) {
                 wps[ri_width + wpsi] = INFINITY;
